@@ -224,6 +224,7 @@ class Manager:
         self._executing_thread = None
         self._flushing_thread = None
         self._running = False
+        self._exit_code = None
         self.__thread = None
         self.__process = None
         self._lock = RLock()
@@ -791,8 +792,11 @@ class Manager:
             for _ in range(3):
                 self.tick()
 
-        if code is not None:
-            raise SystemExit(code)
+            if code is not None:
+                raise SystemExit(code)
+        elif code is not None:
+            # run() raises it once everything queued has been processed
+            self._exit_code = code
 
     def processTask(self, event, task, parent=None):  # noqa
         # TODO: C901: This has a high McCabe complexity score of 16.
@@ -982,3 +986,7 @@ class Manager:
         self.root._executing_thread = None
         self.__thread = None
         self.__process = None
+
+        if self._exit_code is not None:
+            code, self._exit_code = self._exit_code, None
+            raise SystemExit(code)
